@@ -23,8 +23,11 @@ def asserts(ids):
 def run(tier, seed):
     ck = Check('C19', tier, seed, level='proof')
     idxs = list(range(255, -1, -1))
-    jobs = [{'id': 'it%d' % k, 'harness': 'vh_multiply', 'summaries': KS, 'traceall': True, 'cut': dict(CUT, phis={'i': k})} for k in idxs]
-    jobs.append({'id': 'exit', 'harness': 'vh_multiply', 'summaries': KS, 'traceall': True, 'cut': dict(CUT, phis={'i': -1})})
+    from vf.dlog import ladder_orientation
+    ORI, _first, EXITV, CN = ladder_orientation(HARNESS, KS)   # name and direction of the loop counter, read from the code
+    ck.extra['ladder_loop'] = 'counter %s counts %s' % (CN, '255..0' if ORI == 'down' else '0..255')
+    jobs = [{'id': 'it%d' % k, 'harness': 'vh_multiply', 'summaries': KS, 'traceall': True, 'cut': dict(CUT, phis={CN: k})} for k in idxs]
+    jobs.append({'id': 'exit', 'harness': 'vh_multiply', 'summaries': KS, 'traceall': True, 'cut': dict(CUT, phis={CN: EXITV})})
     runs = ck.absorb(core.symx_parallel(HARNESS, jobs, chunks=14))
     ck.extra['_runs'] = runs
     R_ = {r.id: r for r in runs}
@@ -38,10 +41,19 @@ def run(tier, seed):
     allowed_pos = set()
     fnset = set()
 
+    LASTV = 0 if ORI == 'down' else 255     # counter value of the last iteration
+    rotated = [False]
+
     def step(k):
         r = R_['it%d' % k]
         tag = 'C19.iter%d' % k
         cuts = [p for p in r.paths if p['end'] == 'cut']
+        last_rotated = False
+        if not cuts and k == LASTV:
+            # a rotated loop (exit test in the latch): the arms of the last iteration run on through the suffix and return
+            cuts = [p for p in r.paths if p['end'] == 'return' and 'cut:havoc' in p['obs']]
+            last_rotated = True
+            rotated[0] = True
         if not ck.ground(tag + '.shape', 'iteration %d: exactly two continuing arms (plus the k = 1 shortcut before the loop)' % k, len(cuts) == 2 and len(r.paths) == 3,
                          str([(p['end'], p.get('panic') or p.get('err')) for p in r.paths][:4])):
             failures.append(tag)
@@ -62,13 +74,13 @@ def run(tier, seed):
                 fnset.add(br['fn'])
                 allowed_pos.add((br['fn'], br['at']))
         # body segment = trace after the common prefix (the prefix is the same run prefix in every iteration)
-        return a['trace']
+        return None if last_rotated else a['trace']
     with core.ThreadPoolExecutor(max_workers=5) as ex:
         traces = list(ex.map(step, idxs))
     traces = [t for t in traces if t is not None]
     if traces:
         ok = all(t == traces[0] for t in traces)
-        if not ck.ground('C19.iterations-equal', 'all 256 iterations execute the same call sequence (prefix + one ladder step of %d calls)' % len(traces[0]), ok):
+        if not ck.ground('C19.iterations-equal', 'all %d iterations that return to the loop header execute the same call sequence (prefix + one ladder step of %d calls)' % (len(traces), len(traces[0])), ok and len(traces) >= 255):
             failures.append('iterations')
         ck.extra['calls_per_run_prefix_plus_one_step'] = len(traces[0])
     # the shortcut test and the bit test, in multiply or in a helper of the group layer it calls; never inside internal/field or internal/scalar
@@ -77,7 +89,9 @@ def run(tier, seed):
         failures.append('branches')
     r = R_['exit']
     ex_paths = [p for p in r.paths if p['end'] == 'return' and 'cut:havoc' in p['obs']]
-    if not ck.ground('C19.exit', 'after 256 iterations the loop exits on a concrete counter (no scalar-dependent early exit) and the suffix is straight-line', len(ex_paths) == 1 and len(r.paths) == 2):
+    if rotated[0]:
+        ck.ground('C19.exit', 'the loop exits in the latch of the last iteration on a concrete counter: both arms of that iteration run the same straight-line suffix (checked as part of that iteration)', True)
+    elif not ck.ground('C19.exit', 'after 256 iterations the loop exits on a concrete counter (no scalar-dependent early exit) and the suffix is straight-line', len(ex_paths) == 1 and len(r.paths) == 2):
         failures.append('exit')
     ck.extra['loops_unrolled'] = r.loops
     # the schedule of a call must not depend on earlier calls either: Multiply keeps nothing in package-level state
